@@ -31,6 +31,7 @@ structure Obs where
   fe    : Option Nat
   runs  : Nat             -- how often this call's own function was executed
   stuck : Bool            -- the call did not return while only calls on other keys were being held
+  panicked : Bool := false  -- the call panicked (no scripted function panics)
   deriving Repr
 
 def Obs.ran (o : Obs) : Bool := o.runs > 0
@@ -80,11 +81,20 @@ def freshViolation (r : Obs) : Option String :=
     else if f && r.val ≠ some r.id then some s!"one-fresh: call {r.id} is fresh but returns the result of another execution"
     else none
 
+def stuckViolation (r : Obs) : Option String :=
+  if r.stuck then some s!"stuck: call {r.id} on key {r.key} did not finish although nothing it may wait for was running (keys-independent / lost wake-up)"
+  else none
+
+def panicViolation (r : Obs) : Option String :=
+  if r.panicked then some s!"panic: call {r.id} on key {r.key} panicked although no user function panics" else none
+
 def sfViolations (h : List Obs) : List (Nat × String) :=
   exclusiveViolations h
   ++ h.filterMap (fun r => (noStaleViolation h r).map (r.line, ·))
   ++ h.filterMap (fun r => (freshViolation r).map (r.line, ·))
   ++ h.filterMap (fun r => if r.runs > 1 then some (r.line, s!"exclusive: function of call {r.id} executed {r.runs} times") else none)
+  ++ h.filterMap (fun r => (stuckViolation r).map (r.line, ·))
+  ++ h.filterMap (fun r => (panicViolation r).map (r.line, ·))
 
 /-- LockedCalls: own function exactly once, own result. -/
 def ownFnViolation (r : Obs) : Option String :=
@@ -93,14 +103,11 @@ def ownFnViolation (r : Obs) : Option String :=
   else if r.err ≠ (if r.serr then some r.id else none) then some s!"own-fn-once: call {r.id} returned the error of {r.err}"
   else none
 
-def stuckViolation (r : Obs) : Option String :=
-  if r.stuck then some s!"keys-independent: call {r.id} on key {r.key} did not finish while only other keys were busy"
-  else none
-
 def lcViolations (h : List Obs) : List (Nat × String) :=
   exclusiveViolations h
   ++ h.filterMap (fun r => (ownFnViolation r).map (r.line, ·))
   ++ h.filterMap (fun r => (stuckViolation r).map (r.line, ·))
+  ++ h.filterMap (fun r => (panicViolation r).map (r.line, ·))
 
 /-- ResourceManager: `serr` = scripted failure of `create`; a successful `create` returns the call's id as instance. -/
 def rmCallViolation (h : List Obs) (r : Obs) : Option String :=
@@ -131,5 +138,6 @@ def rmViolations (h : List Obs) : List (Nat × String) :=
   ++ h.filterMap (fun r => (rmCallViolation h r).map (r.line, ·))
   ++ h.filterMap (fun r => if r.runs > 1 then some (r.line, s!"rm: create of call {r.id} executed {r.runs} times") else none)
   ++ h.filterMap (fun r => (stuckViolation r).map (r.line, ·))
+  ++ h.filterMap (fun r => (panicViolation r).map (r.line, ·))
 
 end GoZero.C07.Spec
